@@ -234,6 +234,48 @@ pub fn body(case: &Case, out: &Shared) {
                     }
                 }
             }
+            Op::CheckAll => {
+                for backward in [false, true] {
+                    with_out(out, |o| o.stats.scans += 1);
+                    let what = if backward { "backward scan" } else { "forward scan" };
+                    let r = call("scan", || if backward { scan_backward(d, None) } else { scan_forward(d, None) });
+                    match r {
+                        Called::Ok(Ok(dump)) => {
+                            let got: Kv = dump.iter().cloned().collect();
+                            let mut keys: Vec<Vec<u8>> = plan.keys.clone();
+                            for k in got.keys() {
+                                if !keys.contains(k) {
+                                    keys.push(k.clone());
+                                }
+                            }
+                            for k in &keys {
+                                let v = got.get(k).cloned();
+                                let al = allowed(&writes, k);
+                                if !al.contains(&v) {
+                                    push_finding(
+                                        out,
+                                        Finding::new(&["C08"], "scan-ok-but-wrong", &format!("{:?}|{}", mode.unwrap_or(FaultMode::Transient), site(&fs)), format!("{}: a {} returned without any error but shows key {} = {}; explainable by the writes so far: {:?}", fault_label(&fs), what, show_key(k), show_opt(&v), al.iter().map(show_opt).collect::<Vec<_>>()), Some(idx)),
+                                    );
+                                    stopped = true;
+                                    break;
+                                }
+                            }
+                        }
+                        Called::Ok(Err(ScanError::Err(_))) => with_out(out, |o| o.stats.bump("reads_returning_err", 1)),
+                        Called::Ok(Err(ScanError::Disorder(dis))) => {
+                            push_finding(out, Finding::new(&["C08", "C04"], "scan-disorder", "", format!("{}: {}", fault_label(&fs), dis), Some(idx)));
+                            stopped = true;
+                        }
+                        Called::Panicked { message, location } => {
+                            push_finding(out, Finding::new(&["C08"], "panic-under-fault", "scan", format!("{}: a scan panicked instead of returning an error: {} at {}", fault_label(&fs), message, location), Some(idx)));
+                            stopped = true;
+                        }
+                    }
+                    if stopped {
+                        break;
+                    }
+                }
+            }
             Op::Flush => {
                 with_out(out, |o| o.stats.flushes += 1);
                 if let Called::Panicked { message, location } = call("flush", || d.verif_flush()) {
